@@ -65,6 +65,7 @@ enum {
     F_SUBSECOND_INIT,
     F_EXTREME,
     F_WALL_BEFORE_EPOCH,
+    F_DST_GAP_READING,
     F_NFLAGS
 };
 static const char *FLAG_NAMES[F_NFLAGS] = {
@@ -90,6 +91,7 @@ static const char *FLAG_NAMES[F_NFLAGS] = {
     "subsecond_constructor_input",
     "extreme_instant",
     "west_offset_wall_clock_before_epoch",
+    "reading_inside_a_daylight_saving_switch_window",
 };
 
 /* ------------------------------------------------------------------ reference calendar (a): closed form */
@@ -242,6 +244,7 @@ static int lib_format(const struct aws_date_time *dt, int r, struct aws_byte_buf
 
 /* ------------------------------------------------------------------ run state */
 static long s_tz_off;        /* p0 */
+static bool s_dst_zone;      /* p3: the process's zone has daylight saving; local-time oracles are skipped */
 static unsigned s_py_every;  /* p1 */
 static unsigned s_py_budget; /* p2 */
 static unsigned s_py_written;
@@ -351,8 +354,8 @@ static void check_fields(const struct aws_date_time *dt, int64_t t, unsigned ms,
     unsigned ld = aws_date_time_month_day(dt, true);
     int lwd = (int)aws_date_time_day_of_week(dt, true);
     unsigned lh = aws_date_time_hour(dt, true), lmi = aws_date_time_minute(dt, true), ls = aws_date_time_second(dt, true);
-    if ((int64_t)ly != l.y || lmo != l.mo - 1 || (int)ld != l.d || lwd != l.wd || (int)lh != l.h || (int)lmi != l.mi ||
-        (int)ls != l.s || aws_date_time_dst(dt, true)) {
+    if (!s_dst_zone && ((int64_t)ly != l.y || lmo != l.mo - 1 || (int)ld != l.d || lwd != l.wd || (int)lh != l.h || (int)lmi != l.mi ||
+                        (int)ls != l.s || aws_date_time_dst(dt, true))) {
         mon_violation("C19:accessor:local",
                       "%s, t=%lld, TZ offset %ld s: local accessors give %u-%02d-%02u wd=%d %02u:%02u:%02u dst=%d, calendar says "
                       "%lld-%02d-%02d wd=%d %02d:%02d:%02d",
@@ -1047,7 +1050,17 @@ static void random_case(void) {
     struct mon_rng *r = &mon_case_rng;
     for (unsigned i = 0; i < RANDOM_BLOCK; ++i) {
         int64_t t;
-        switch ((unsigned)mon_below(r, 8)) {
+        switch ((unsigned)mon_below(r, 9)) {
+            case 8: { /* readings that do not exist as LOCAL time in zones with daylight saving: 01:00..03:59 in the weeks in
+                       * which the US, EU and southern-hemisphere rules switch (the text says UTC or carries an offset, so
+                       * the process's zone must not matter) */
+                static const int MD[][2] = {{3, 8}, {3, 25}, {10, 1}, {10, 25}, {11, 1}, {4, 1}, {9, 24}};
+                int y = (int)mon_range(r, 1970, 2100);
+                unsigned k = (unsigned)mon_below(r, 7);
+                t = clamp_t(naive_secs(y, MD[k][0], MD[k][1] + (int)mon_below(r, 7), 1 + (int)mon_below(r, 3), (int)mon_below(r, 60), (int)mon_below(r, 60)));
+                mon_flag(F_DST_GAP_READING);
+                break;
+            }
             case 0:
             case 1:
                 t = (int64_t)mon_range(r, 0, (uint64_t)T_MAX);
@@ -1128,6 +1141,7 @@ int main(int argc, char **argv) {
     s_tz_off = mon_run.param[0];
     s_py_every = mon_run.param[1] > 0 ? (unsigned)mon_run.param[1] : 16;
     s_py_budget = mon_run.param[2] > 0 ? (unsigned)mon_run.param[2] : 8000;
+    s_dst_zone = mon_run.param[3] != 0;
     naive_init();
     /* the stage pins TZ; the local-view oracle and the "identical in UTC terms" comparison depend on it */
     {
@@ -1135,12 +1149,27 @@ int main(int argc, char **argv) {
         struct tm a, b;
         localtime_r(&zero, &a);
         localtime_r(&later, &b);
-        if (a.tm_gmtoff != s_tz_off || b.tm_gmtoff != s_tz_off || a.tm_isdst > 0 || b.tm_isdst > 0) {
+        if (s_dst_zone) {
+            /* a zone WITH daylight saving (POSIX rule string, no tzdata needed): only the UTC-side oracles apply */
+            time_t jul = 1562000000; /* 2019-07-01 */
+            struct tm c2;
+            localtime_r(&jul, &c2);
+            localtime_r(&later, &b);
+            time_t jan = 1547000000; /* 2019-01-09 */
+            localtime_r(&jan, &a);
+            if (a.tm_isdst == c2.tm_isdst) {
+                fprintf(stderr, "mon: C19 DST stage: TZ '%s' has no daylight saving\n", getenv("TZ") ? getenv("TZ") : "(unset)");
+                return 2;
+            }
+            mon_count("tz_confirmed_dst_zone_processes", 1);
+        } else if (a.tm_gmtoff != s_tz_off || b.tm_gmtoff != s_tz_off || a.tm_isdst > 0 || b.tm_isdst > 0) {
             fprintf(stderr, "mon: C19 expects a fixed UTC offset of %ld s (--p0) but the process's TZ ('%s') gives %ld / %ld s\n",
                     s_tz_off, getenv("TZ") ? getenv("TZ") : "(unset)", (long)a.tm_gmtoff, (long)b.tm_gmtoff);
             return 2;
         }
-        mon_count(s_tz_off == 0 ? "tz_confirmed_utc_processes" : "tz_confirmed_nonutc_processes", 1);
+        if (!s_dst_zone) {
+            mon_count(s_tz_off == 0 ? "tz_confirmed_utc_processes" : "tz_confirmed_nonutc_processes", 1);
+        }
     }
     if (mon_run.outdir) {
         char path[1024];
